@@ -120,8 +120,8 @@ def conflict (a b : Acc n) : Prop :=
   ¬ (∃ k, a.lock = some k ∧ b.lock = some k)
 
 /-- `~Communicator` of a helper runs while its parent's thread is not running (blocked in `wait`, finished or terminated),
-    or the parent is the root (the engine thread is in its main loop then).  The current C++ code does NOT
-    guarantee this for helper parents (known finding `worker-destroy-vs-poll`): the acceptor checks it per event. -/
+    or the parent is the root (the engine thread is in its main loop then).  The original C++ code did NOT
+    guarantee this for helper parents (`worker-destroy-vs-poll`, repaired): the strict acceptor checks it per event. -/
 def exitQuiet (r : Fin n) (s : St n) : Ev n → Prop
   | .exit v => match s.parent v with
       | some p => p = r ∨ s.pc p = .wait ∨ s.pc p = .done ∨ s.pc p = .gone
